@@ -84,6 +84,7 @@ func loadCorpus(path string) {
 }
 
 var refRe = regexp.MustCompile(`@[A-Za-z0-9_]+`)
+var keyRe = regexp.MustCompile(`\n\s*@[A-Za-z0-9_]+\s*:`)
 
 // ---- JSight grammar (small, aimed at: >=2 broken types, unnamed `or` types,
 // allOf DAGs and cycles, key shortcuts, named enums with ambiguous literals,
@@ -961,6 +962,10 @@ func genProject(r *rng, tornPct int) Project {
 				continue // a missing type
 			}
 			k, t := genTypeText(r, names, enums)
+			if keyRe.MatchString("\n"+p.Text) && strings.Contains(p.Text, name+":") && r.pct(75) {
+				// used as a key shortcut: such a type has to be a string to be accepted
+				k, t = "j", r.pick([]string{`"abc"`, `"key" // {minLength: 1}`, `"k-1" // {regex: "^[a-z0-9-]+$"}`, `"a@b.cc" // {type: "email"}`, `"id" // {enum: ["id", "name"]}`})
+			}
 			p.Types = append(p.Types, TypeSpec{Name: name, Kind: k, Text: t})
 		}
 		// types referenced only from other types, and unused extras (valid or broken)
@@ -1147,6 +1152,9 @@ func swarmCfg(r *rng, prop string) RunCfg {
 	c := RunCfg{Policy: r.n(simrt.NPolicies)}
 	c.SwitchPct = []int{100, 300, 1000, 2500, 5000}[r.n(5)]
 	c.PCTDepth = 1 + r.n(4)
+	// where the priority change points of the PCT policy fall: runs are between a few
+	// hundred and a few hundred thousand steps long, so the span is drawn per run
+	c.PCTSpan = []int{150, 400, 1000, 3000, 10000, 40000, 150000}[r.n(7)]
 	if prop == "C10" || prop == "C11" {
 		if r.pct(50) {
 			c.PoolFreshPct = []int{5, 20, 50}[r.n(3)]
